@@ -237,6 +237,45 @@ func c02CheckAccepted(w *mc.W, kind string, cas any, s string, netName string, a
 		}
 	default:
 		c.Violate("unknown-address-type", kind, cas, k)
+		return
+	}
+	// The caller now USES its result the way the API allows (a public-key address is switched to
+	// another serialisation format; the bytes handed out by ScriptAddress are overwritten), and the
+	// same string is decoded once more: what the second call returns is a function of the string, not
+	// of what happened to the object an earlier call returned.
+	var enc2 string
+	var err2 error
+	if msg, p := mc.Guard(func() {
+		if x, ok := a.(*bchutil.AddressPubKey); ok {
+			for _, f := range []bchutil.PubKeyFormat{bchutil.PKFUncompressed, bchutil.PKFCompressed, bchutil.PKFHybrid} {
+				if f != x.Format() {
+					x.SetFormat(f)
+					break
+				}
+			}
+		} else {
+			sa := a.ScriptAddress()
+			for i := range sa {
+				sa[i] ^= 0xa5
+			}
+		}
+		var a2 bchutil.Address
+		a2, err2 = bchutil.DecodeAddress(s, net)
+		if err2 == nil {
+			if k == "pubkey" {
+				enc2 = a2.String()
+			} else {
+				enc2 = a2.EncodeAddress()
+			}
+		}
+	}); p {
+		c.Violate("second-decode-panics-after-the-first-result-was-used", kind, cas, msg)
+		return
+	}
+	if err2 != nil {
+		c.Violate("second-decode-of-an-accepted-string-fails-after-the-first-result-was-used", kind, cas, fmt.Sprintf("%q: %v", s, err2))
+	} else if enc2 != enc {
+		c.Violate("second-decode-depends-on-what-the-caller-did-with-the-first-result", kind, cas, fmt.Sprintf("%q: first decode re-encodes to %q, second (after the first object was modified by its owner) to %q", s, enc, enc2))
 	}
 }
 
@@ -614,14 +653,14 @@ func runC02(c *mc.Ctx) {
 			for _, h0 := range []byte{0x00, 0x01, 0x5a} {
 				h := bytes.Repeat([]byte{h0}, 20)
 				pay := ref.CashEncode(rn.CashPrefix, 0, h)
-				for _, b := range []string{pay, strings.ToUpper(pay), rn.CashPrefix + ":" + pay, strings.ToUpper(rn.CashPrefix + ":" + pay)} {
+				for _, b := range []string{pay, strings.ToUpper(pay), rn.CashPrefix + ":" + pay, strings.ToUpper(rn.CashPrefix + ":" + pay), ref.B58CheckEncode(rn.P2PKHID, h), ref.B58CheckEncode(rn.P2SHID, h)} {
 					for _, m := range runeSubstitutions(b) {
 						subs = append(subs, sc{nn, m})
 					}
 				}
 			}
 		}
-		c.Space("every byte value at every position of valid cashaddr and legacy strings / every ASCII-folding rune at every position of valid cashaddr strings", int64(len(subs)))
+		c.Space("every byte value at every position of valid cashaddr and legacy strings / every ASCII-folding rune and every look-alike multi-byte character (low byte / low 7 bits / fullwidth form equal to the letter) at every position of valid cashaddr and legacy strings", int64(len(subs)))
 		c.ParFor(int64(len(subs)), func(w *mc.W, i int64) {
 			w.State()
 			c02EvalStr(w, c02StrOf(subs[i].net, subs[i].s))
